@@ -101,7 +101,33 @@ type FieldClass struct {
 	Line  int
 }
 
+// CoverDecl: the spec function must mention every field of the struct type
+// (a new field without a reset clause fails "unreset-field").
+type CoverDecl struct {
+	Spec   string
+	Type   string
+	Props  []string
+	Except map[string]bool
+	File   string
+	Line   int
+	Pkg    string
+}
+
+// WritesDecl: a field is assigned only inside the listed functions (and its
+// address never escapes) – justifies object invariants over that field.
+type WritesDecl struct {
+	Recv, Field string
+	Funcs       map[string]bool
+	Props       []string
+	File        string
+	Line        int
+}
+
 type ContractDB struct {
+	ZeroGlobals  map[string][]string // "pkg.name" -> properties: never assigned, keeps its zero value
+	ConstGlobals map[string][]string // "pkg.name" -> properties: assigned once in init with a fresh object
+	Writes  []*WritesDecl
+	Covers  []*CoverDecl
 	Funcs   map[string]*FuncContract
 	Specs   map[string]*SpecFn
 	Ghosts  map[string]*GhostDecl
@@ -117,7 +143,7 @@ type ContractDB struct {
 
 var clauseRe = regexp.MustCompile(`^(requires|ensures|invariant|assert)(\?)?(\[[^\]]*\])?(!)?\s*(.*)$`)
 
-var topKeywords = map[string]bool{"func": true, "ext": true, "iface": true, "spec": true, "ghost": true, "axiom": true, "sealed": true, "lemma": true, "pure": true, "class": true, "trusted": true}
+var topKeywords = map[string]bool{"zeroglobal": true, "constglobal": true, "writes": true, "covers": true, "func": true, "ext": true, "iface": true, "spec": true, "ghost": true, "axiom": true, "sealed": true, "lemma": true, "pure": true, "class": true, "trusted": true}
 var subKeywords = map[string]bool{"property": true, "flags": true, "requires": true, "ensures": true, "modifies": true, "loop": true, "let": true, "params": true}
 
 func firstWord(s string) string {
@@ -206,9 +232,7 @@ func (db *ContractDB) parseFile(path, pkg string) error {
 		case "func", "ext", "iface", "trusted":
 			name := rest
 			if w == "func" || w == "trusted" {
-				if !strings.Contains(strings.TrimLeft(name, "(*"), ".") || strings.HasPrefix(name, "(") {
-					name = pkg + "." + name
-				}
+				name = qualifyFuncName(pkg, name)
 			}
 			kind := w
 			trusted := false
@@ -381,6 +405,83 @@ func (db *ContractDB) parseFile(path, pkg string) error {
 			}
 			lm.E = e
 			db.Lemmas = append(db.Lemmas, lm)
+		case "zeroglobal":
+			cur = nil
+			f := strings.Fields(rest)
+			if len(f) < 1 {
+				return fail(l, "zeroglobal name [@Cnn]")
+			}
+			n := f[0]
+			if !strings.Contains(n, ".") {
+				n = pkg + "." + n
+			}
+			if db.ZeroGlobals == nil {
+				db.ZeroGlobals = map[string][]string{}
+			}
+			var zprops []string
+			for _, w := range f[1:] {
+				zprops = append(zprops, strings.TrimPrefix(w, "@"))
+			}
+			db.ZeroGlobals[n] = zprops
+		case "constglobal":
+			cur = nil
+			f := strings.Fields(rest)
+			if len(f) < 1 {
+				return fail(l, "constglobal name [@Cnn]")
+			}
+			n := f[0]
+			if !strings.Contains(n, ".") {
+				n = pkg + "." + n
+			}
+			if db.ConstGlobals == nil {
+				db.ConstGlobals = map[string][]string{}
+			}
+			var props []string
+			for _, w := range f[1:] {
+				props = append(props, strings.TrimPrefix(w, "@"))
+			}
+			db.ConstGlobals[n] = props
+		case "writes":
+			cur = nil
+			// writes (*T).field only-in f g h @C20
+			f := strings.Fields(rest)
+			if len(f) < 3 || f[1] != "only-in" {
+				return fail(l, "writes (*T).field only-in func... [@Cnn]")
+			}
+			i := strings.LastIndex(f[0], ".")
+			recv := strings.Trim(f[0][:i], "(*)")
+			if !strings.Contains(recv, ".") {
+				recv = pkg + "." + recv
+			}
+			wd := &WritesDecl{Recv: recv, Field: f[0][i+1:], Funcs: map[string]bool{}, File: path, Line: l.line}
+			for _, w := range f[2:] {
+				if strings.HasPrefix(w, "@") {
+					wd.Props = append(wd.Props, w[1:])
+				} else {
+					wd.Funcs[qualifyFuncName(pkg, w)] = true
+				}
+			}
+			db.Writes = append(db.Writes, wd)
+		case "covers":
+			cur = nil
+			// covers specfn pkg.Type @C20 except a b c
+			f := strings.Fields(rest)
+			if len(f) < 2 {
+				return fail(l, "covers specfn pkg.Type [@Cnn] [except f...]")
+			}
+			cd := &CoverDecl{Spec: f[0], Type: f[1], Except: map[string]bool{}, File: path, Line: l.line, Pkg: pkg}
+			ex := false
+			for _, w := range f[2:] {
+				switch {
+				case strings.HasPrefix(w, "@"):
+					cd.Props = append(cd.Props, w[1:])
+				case w == "except":
+					ex = true
+				case ex:
+					cd.Except[w] = true
+				}
+			}
+			db.Covers = append(db.Covers, cd)
 		case "sealed":
 			cur = nil
 			parts := strings.Split(rest, "=>")
@@ -531,4 +632,17 @@ func (c *Clause) appliesTo(prop string) bool {
 		}
 	}
 	return false
+}
+
+// qualifyFuncName prefixes the contract file's package unless the name is
+// already package-qualified ("socket.NewMessage", "socket.(*message).Reset").
+func qualifyFuncName(pkg, name string) string {
+	if strings.HasPrefix(name, "(") {
+		return pkg + "." + name
+	}
+	i := strings.Index(name, ".")
+	if i < 0 || strings.Contains(name[:i], "$") {
+		return pkg + "." + name
+	}
+	return name
 }
